@@ -18,6 +18,8 @@ import (
 	supvmodel "go.amzn.com/lambda/supervisor/model"
 	"go.amzn.com/lambda/telemetry"
 	"go.amzn.com/lambda/verifhook"
+
+	log "github.com/sirupsen/logrus"
 )
 
 type Sandbox struct {
@@ -65,6 +67,11 @@ func Start(ctx context.Context, s *Sandbox) (interop.RapidContext, interop.Inter
 	appctx.StoreInitType(appCtx, s.InitCachingEnabled)
 
 	server := rapi.NewServer(s.RuntimeAPIHost, s.RuntimeAPIPort, appCtx, registrationService, renderingService, s.EnableTelemetryAPI, s.LogsSubscriptionAPI, s.TelemetrySubscriptionAPI, credentialsService)
+	// Bind before the address is published to the runtime domain: when the
+	// configured port is 0 the OS assigns the real port only at Listen().
+	if err := server.Listen(); err != nil {
+		log.WithError(err).Panic("Runtime API Server failed to listen")
+	}
 	runtimeAPIAddr := fmt.Sprintf("%s:%d", server.Host(), server.Port())
 
 	// TODO: pass this directly down to HTTP servers and handlers, instead of using
